@@ -50,6 +50,15 @@ pub enum Call {
         rv: [u8; 4],
     },
     Display { variant: u8, payload: u16 },
+    /// a decode through a reader that declines `bytes()` requests across the
+    /// given offsets (read faults: not a conforming reader, so nothing is
+    /// said about WHAT it returns — only that it is the same every time)
+    DecodeDeclining {
+        #[serde(with = "hexser")]
+        bytes: Vec<u8>,
+        opts: Option<u8>,
+        cuts: Vec<usize>,
+    },
 }
 
 impl Call {
@@ -64,6 +73,7 @@ impl Call {
             Call::Hide { .. } => "AVP::hide",
             Call::Reveal { .. } => "AVP::reveal",
             Call::Display { .. } => "DecodeError::to_string",
+            Call::DecodeDeclining { .. } => "try_read_validate (reader declines some requests)",
         }
     }
 }
@@ -87,7 +97,14 @@ pub fn caller_buffer(c: &Call) -> Option<&Vec<u8>> {
 /// As `perform`, but the caller-owned byte string is taken from `buf` (same
 /// contents, different storage) when given.
 pub fn perform_with(c: &Call, buf: Option<&[u8]>) -> String {
+    if let Call::DecodeDeclining { bytes, opts, cuts } = c {
+        return match crate::deliver::decode_msg(bytes, opts.map(Opts::from_index), &crate::seams::ReaderCfg::Refusing(cuts.clone()), false) {
+            Ok(o) => format!("{} rem {}", crate::deliver::result_text(&o.result), o.remaining),
+            Err(c) => format!("PANIC@{}", panic_site(&c)),
+        };
+    }
     let r = guard(|| match c {
+        Call::DecodeDeclining { .. } => unreachable!(),
         Call::Decode { bytes, opts } => {
             let bytes: &[u8] = buf.unwrap_or(&bytes[..]);
             let mut r = SliceReader::from(bytes);
@@ -434,6 +451,28 @@ pub fn gen_calls(rng: &mut Rng, sw: &Swarm, n: usize) -> Vec<Call> {
             },
         };
         out.push(c);
+    }
+    // read faults: a message with hidden and byte-string AVPs through a
+    // reader that declines requests across discontinuities, twice, with
+    // other calls in between
+    if rng.chance(1, 3) {
+        let mut sw2 = sw.clone();
+        sw2.size = SizeRegime::Typical;
+        let mut avps = vec![SpecAvp { attr: 0, val: Val::Code(1) }];
+        for _ in 0..rng.urange(2, 5) {
+            let at = *rng.pick(&[7u16, 8, 11, 13, 9]);
+            avps.push(if rng.bool() { gen_hidden(rng, &sw2) } else { gen_avp_of(rng, &sw2, at) });
+        }
+        let m = SpecMessage::Control { length: 0, tunnel_id: rng.u16(), session_id: 0, ns: 0, nr: 0, avps };
+        let b = spec_encode(&m);
+        if b.len() < 4000 {
+            if let crate::seams::ReaderCfg::Refusing(cuts) = crate::deliver::draw_refusing(rng, b.len()) {
+                let c = Call::DecodeDeclining { bytes: b, opts: Some(rng.below(8) as u8), cuts };
+                let at = rng.usize_below(out.len() + 1);
+                out.insert(at, c.clone());
+                out.push(c);
+            }
+        }
     }
     // feedback: a call whose input is what an earlier call worked with
     // inside — the plaintext a reveal recovered, offered as a hidden value
